@@ -108,6 +108,50 @@ struct FrameHistory
     }
 };
 
+// Coverage-guided mode: any field image of a history is a legal decoder input (arbitrary bytes are); only the work is bounded.
+inline void boundHistory(FrameHistory& h, size_t maxFrames = 300, size_t maxBytes = 800000)
+{
+    if (h.frames.size() > maxFrames)
+        h.frames.resize(maxFrames);
+    size_t total = 0;
+    for (auto& f : h.frames)
+    {
+        f.kind = f.kind ? 1 : 0;
+        if (f.msgs.size() > 12)
+            f.msgs.resize(12);
+        if (f.raw.size() > 70000)
+            f.raw.resize(70000);
+        if (f.trailing.size() > 4096)
+            f.trailing.resize(4096);
+        for (auto& m : f.msgs)
+        {
+            m.useBytes = m.useBytes ? 1 : 0;
+            if (m.len > 65535)
+                m.len = 65535;
+            if (m.bytes.size() > 4096)
+                m.bytes.resize(4096);
+            m.seg &= 3;
+        }
+        if (f.kind == 1)
+        {
+            f.msgs.clear();
+            f.trailing.clear();
+        }
+        else
+            f.raw.clear();
+        size_t sz = f.kind == 1 ? f.raw.size() : 8 + f.trailing.size();
+        for (const auto& m : f.msgs)
+            sz += 16 + (m.useBytes ? m.bytes.size() : m.len);
+        if (total + sz > maxBytes)
+        {
+            // the rest of the history would make the input too expensive: shrink this frame's payloads
+            for (auto& m : f.msgs)
+                m.len = std::min<uint32_t>(m.len, 64);
+        }
+        total += sz;
+    }
+}
+
 // Compare a decoded packet with what the reference reassembler says must be delivered.
 inline Verdict compareDelivered(const lib::Packet& p, const model::Delivered& e, const std::string& where, bool compareTypeAndBytes = true)
 {
